@@ -101,7 +101,8 @@ class Est:
         return True
 
 
-SHAPES = ["ring", "ringtail", "clique", "diamond", "parallel", "selfclone", "random", "chain", "twocycles", "fanin", "none"]
+SHAPES = ["ring", "ringtail", "clique", "diamond", "parallel", "selfclone", "random", "chain", "twocycles", "fanin", "none",
+          "mutual"]
 
 
 def build_shape(rng, e, shape, k, unrecorded_p=0.0):
@@ -164,6 +165,17 @@ def build_shape(rng, e, shape, k, unrecorded_p=0.0):
         else:
             for i in range(k):
                 e.edge(i, (i + 1) % k, rec())
+    elif shape == "mutual":
+        # neighbours adopting each other with *unequal* multiplicities: each table then holds a Forward and a
+        # Backward entry for the same peer with different counts (m39-style dedupe bugs need exactly this)
+        if k == 1:
+            e.edge(0, 0, rec())
+        for i in range(min(k - 1, 2)):
+            m, n_ = rng.sample([1, 2, 3], 2)
+            for _ in range(m):
+                e.edge(i, i + 1, rec())
+            for _ in range(n_):
+                e.edge(i + 1, i, rec())
     elif shape == "random":
         for _ in range(rng.randint(1, 2 * k + 1)):
             e.edge(rng.randrange(k), rng.randrange(k), rec())
@@ -309,6 +321,49 @@ def stream_api(seed, n, max_obj=4):
         mix(rng, e, rng.randint(2, 10), API_ALPHA)
         drop_all(rng, e, 1.0)
         yield (f"api-{seed}-{i}-{shape}{k}", e.ops)
+
+
+def stream_giveup(seed, n, max_obj=4):
+    """C12 quantifier: an object taking part in adoptions (as owner, as target, both, with parallel and unequal
+    multiplicities, self-held) is brought down to ONE strong handle held by the program — the stored handles to it
+    are taken out of their holders (mostly without `unadopt`) and all but one are dropped — and then given up with
+    `tryUnwrap` / `makeMut` (a Weak outstanding or not); afterwards the former peers are used and dropped."""
+    rng = random.Random(seed ^ 0x61FE)
+    for i in range(n):
+        e = Est()
+        shape = rng.choice(["mutual", "mutual", "mutual", "parallel", "clique", "selfclone", "random", "ring", "fanin"])
+        k = rng.randint(2, max_obj)
+        build_shape(rng, e, shape, k, 0.0)
+        victim = rng.randrange(k)
+        if rng.random() < 0.6:
+            iv = e.find_root(victim)
+            if iv is not None:
+                e.downgrade(iv)
+                if rng.random() < 0.3:
+                    e.raw(f"storeWeak {len(e.wroots) - 1} {rng.randrange(max(1, len(e.roots)))}")
+                    if e.wroots:
+                        e.wroots.pop()
+        # take every stored handle to the victim out of its holders
+        for holder in range(k):
+            while victim in e.held.get(holder, []):
+                ih = e.find_root(holder)
+                if ih is None:
+                    break
+                kk = e.held[holder].index(victim)
+                if rng.random() < 0.75:
+                    e.take(ih, kk)
+                else:
+                    e.unlink(ih, kk)
+        # keep one program handle to the victim
+        while e.roots.count(victim) > 1:
+            e.drop(e.roots.index(victim))
+        iv = e.find_root(victim)
+        if iv is not None:
+            e.raw(f"{rng.choice(['tryUnwrap', 'tryUnwrap', 'makeMut', 'makeMut', 'getMut'])} {iv}")
+        mix(rng, e, rng.randint(0, 5), ["counts", "wcounts", "upgrade", "dropWeak", "clone", "drop", "drop", "dropValue",
+                                       "unlink", "take", "makeMut", "tryUnwrap", "shuffle"])
+        drop_all(rng, e, 1.0)
+        yield (f"giveup-{seed}-{i}-{shape}{k}", e.ops)
 
 
 def stream_noadopt(seed, n, max_ops=24):
